@@ -512,7 +512,7 @@ func (w *World) exec(t *core.Task, ti, oi int) {
 			if cap(a.buf) < len(x)+72 {
 				a.buf = make([]byte, 0, len(x)+4096)
 			}
-			off := (len(x) + oi) % 8 // the slice starts anywhere in the caller's buffer
+			off := (ti*3 + 1) % 8 // the slice starts somewhere inside the caller's buffer - always at the same place: same address, new content
 			buf = a.buf[off : off+len(x)]
 			copy(buf, x)
 		default:
@@ -721,6 +721,15 @@ func (w *World) handOver(t *core.Task, op *Op, m *mimetype.MIME, ti, oi int) {
 	sl.m, sl.obsSet, sl.set, sl.from = m, false, true, [2]int{ti, oi}
 	sl.mu.Unlock()
 	t.Yield(core.KHandoff, nil, "slot-early", int64(op.Slot))
+}
+
+func init() {
+	simio.SniffHook = func(b []byte) {
+		if len(b) > 64 {
+			b = b[:64]
+		}
+		_ = mimetype.Detect(append([]byte(nil), b...))
+	}
 }
 
 // Observer wiring: the os shim tells us about simulated streams it opens.
